@@ -941,7 +941,63 @@ def build_collision(spec):
     return files, files
 
 
+# ---- nested messages NAMED LIKE a top-level message, using the types nested in that top-level message ------------------------------
+COINCIDE_VARIANTS = [(depth, where, refs) for depth in (1, 2) for where in ("same", "other", "sub")
+                     for refs in ("enum", "message", "both", "both_and_itself", "repeated_and_map", "oneof")]
+
+
+def coincide_spec(depth, where, refs, tr="grpc+rest"):
+    pkg = "acme.tasks.v1"
+    return {"pkg": pkg, "coincide": {"depth": depth, "where": where, "refs": refs}, "dep_pkg": False, "sub": "admin" if where == "sub" else None, "service_in_sub": False,
+            "service_yaml": False, "ads": False, "files": [], "opts": [f"transport={tr}", "autogen-snippets=false"], "transport": tr.split("+")}
+
+
+def build_coincide(spec):
+    """`message Status { enum Code; message Detail }` at the top level (of the same file, of another file of the package, or of a file of
+    a sub-package) and a message NESTED in `Task` (directly, or two levels deep) that is also called `Status` and whose fields have the
+    types `Status.Code` / `Status.Detail` of the TOP-LEVEL message: every reference must still reach the top-level message's members"""
+    c = spec["coincide"]
+    pkg = spec["pkg"]
+    tasks = apigen.File("/".join(pkg.split(".")) + "/tasks.proto", pkg)
+    files = []
+    if c["where"] == "same":
+        home = tasks
+    else:
+        hpkg = pkg + (".admin" if c["where"] == "sub" else "")
+        home = apigen.File("/".join(hpkg.split(".")) + "/status.proto", hpkg)
+        files.append(home); tasks.dep(home.name)
+    top = home.msg("Status"); top.field("text")
+    code = top.nested_enum("Code", ["CODE_UNSPECIFIED", "OK", "FAILED"])
+    detail = top.nested("Detail"); detail.field("note")
+    top.field("code", "enum", type_name=code); top.field("detail", "message", type_name=detail)
+    files.append(tasks)
+    task = tasks.msg("Task"); task.field("name")
+    host = task
+    if c["depth"] == 2:
+        host = task.nested("Inner"); host.field("label")
+    inner = host.nested("Status")          # the nested namesake
+    r = c["refs"]
+    if r in ("enum", "both", "both_and_itself"):
+        inner.field("code", "enum", type_name=code)
+    if r in ("message", "both", "both_and_itself"):
+        inner.field("detail", "message", type_name=detail)
+    if r == "both_and_itself":
+        inner.field("origin", "message", type_name=top)
+    if r == "repeated_and_map":
+        inner.field("codes", "enum", repeated=True, type_name=code); inner.map_field("details", "string", "message", vtype_name=detail)
+    if r == "oneof":
+        inner.field("code", "enum", type_name=code, oneof="what"); inner.field("detail", "message", type_name=detail, oneof="what")
+    host.field("status", "message", type_name=inner)
+    if host is not task:
+        task.field("inner", "message", type_name=host)
+    rq = tasks.msg("GetTaskRequest"); rq.field("name", "string", 1)
+    tasks.service("Tasks").method("GetTask", rq, task, http=("get", "/v1/{name=tasks/*}"))
+    return files, files
+
+
 def build(spec):
+    if "coincide" in spec:
+        return build_coincide(spec)
     if "collision" in spec:
         return build_collision(spec)
     if "cycle" in spec:
@@ -1248,7 +1304,9 @@ def run(ctx):
                 "services (optionally one more in the sub-package) with unary/void/paged/LRO/streaming methods, HTTP rules and signatures x options (transport incl. rest+grpc, numeric enums, metadata, "
                 "snippets, name/namespace/warehouse overrides, service-yaml, ads templates + old-naming) + the only-reference family (library.proto names another "
                 "file — same package, sub-package, dependency package, well-known type — in exactly one way: plain/repeated/oneof/map-value field, the same "
-                "inside a nested message, LRO response/metadata, method input/output, page item, resource reference); distinct by spec")
+                "inside a nested message, LRO response/metadata, method input/output, page item, resource reference), the collision family (same-named "
+                "files in two packages of the API) and the namesake family (a nested message named like a top-level message, depth 1 or 2, using that "
+                "message's nested enum / message); distinct by spec")
     ctx.assume("the alternative (ads) template set offers no asyncio client or transport: for it only the synchronous surface is checked")
     ctx.assume("a proto package without a version segment has no proto sub-packages (Naming.build rejects `solo` + `solo.admin`)")
     ctx.assume("Python's parser and importer are not modelled: `parses and imports` is decided by execution on every case")
@@ -1282,6 +1340,16 @@ def run(ctx):
         run_case(ctx, spec, f"collision{k}")
         ctx.count("collision", f"{'+'.join(lay)}:{sh}")
         ctx.case({"collision": [list(lay), sh]} if k < 2 else None, distinct_key=["collision", list(lay), sh, spec["opts"][0]])
+    # a nested message named like a top-level message (same file / other file / sub-package) that uses the top-level message's nested types
+    rn = ctx.rng("coincide")
+    fixedn = [(1, "same", "both"), (2, "same", "both"), (1, "other", "enum")]
+    restn = [v for v in COINCIDE_VARIANTS if v not in fixedn]
+    rn.shuffle(restn)
+    for k, (depth, where, refs) in enumerate(fixedn + restn[:ctx.n(3, len(restn))]):
+        spec = coincide_spec(depth, where, refs, tr=rn.pick(["grpc", "rest", "grpc+rest"]))
+        run_case(ctx, spec, f"coincide{k}")
+        ctx.count("coincide", f"{depth}:{where}:{refs}")
+        ctx.case({"coincide": [depth, where, refs]} if k < 2 else None, distinct_key=["coincide", depth, where, refs, spec["opts"][0]])
     # one file references another in exactly one way (map value, oneof member, nested field, LRO type, method input/output, ...)
     ro = ctx.rng("only-ref")
     matrix = only_ref_matrix()
